@@ -369,7 +369,8 @@ func PRVWBox(jpeg []byte) *Box {
 
 // CR3 builds the canonical Canon CR3 skeleton.
 // extra: 0 none, 1 a 'free' box between moov and xpacket, 2 an unknown 'zzzz' box there,
-// 3 extra unknown children inside the metadata uuid, 4 64-bit sizes for uuid boxes.
+// 3 extra unknown children inside the metadata uuid, 4 64-bit sizes for uuid boxes,
+// 5 / 6 / 7 64-bit size form for the free box before CMT1 / CMT1 / CMT2, CMT4 and moov.
 func CR3(p CR3Parts, extra int) []*Box {
 	cncv := &Box{Type: "CNCV", Payload: raw([]byte("CanonCR3_001/00.11.00/00.00.00"))}
 	cctp := &Box{Type: "CCTP", Payload: raw([]byte{0, 0, 0, 0, 0, 0, 0, 1, 0, 0, 0, 3}), Children: []*Box{
@@ -401,6 +402,14 @@ func CR3(p CR3Parts, extra int) []*Box {
 	mdat := &Box{Type: "mdat", Payload: raw(make([]byte, 64))}
 	if extra == 4 {
 		meta.Large, xp.Large, pv.Large = true, true, true
+	}
+	switch extra { // 64-bit size form for boxes nested inside the metadata uuid / for moov itself
+	case 5:
+		meta.Children[3].Large = true // the free box before CMT1
+	case 6:
+		meta.Children[4].Large = true // CMT1
+	case 7:
+		meta.Children[5].Large, meta.Children[7].Large, moov.Large = true, true, true // CMT2, CMT4, moov
 	}
 	top := []*Box{Ftyp("crx ", 1, "crx ", "isom"), moov}
 	switch extra {
